@@ -577,7 +577,14 @@ def check_spanning_forest(rep, prog):
         for r in varrets:
             c = ex.var_of(r.c[0])
             if c is None:
-                rep.undecided('R16c', r, fn, whatc, 'does not return a counter variable')
+                verdict = _early_forest_complete(prog, fn, r, g)
+                if verdict is not None and verdict[0] == 'bad':
+                    rep.violation('R16c', r, fn, 'a return from inside the component loop is taken only when every vertex has been reached', verdict[1],
+                                  key='R16c|%s|early-complete' % fn.g)
+                elif verdict is not None and verdict[0] == 'ok':
+                    rep.ok('R16c', r, fn, 'a return from inside the component loop is taken only when every vertex has been reached', verdict[1])
+                else:
+                    rep.undecided('R16c', r, fn, whatc, 'does not return a counter variable')
                 continue
             defs = ex.assignments_to(fn, c)
             ini = [rhs for (d, rhs) in defs if d.k == 'VarDecl']
@@ -613,6 +620,71 @@ def check_spanning_forest(rep, prog):
             else:
                 rep.ok('R16c', r, fn, whatc)
     return n
+
+
+def _early_forest_complete(prog, fn, r, g):
+    """`if (++found == X) return c + 1;` next to the emission of a tree edge: `found` counts emitted tree edges, so the forest spans every
+    vertex (and the current tree is the last one) exactly when found == n - 1.  X is evaluated in its C++ arithmetic over small graph
+    shapes: a shape with X < n - 1 for which a forest with X edges exists (X <= m) makes the function return while vertices - at least
+    isolated ones - are still unreached, so the component count is too small and m - n + c underflows."""
+    conds = ex.ast_conditions(r)
+    if not conds:
+        return None
+    cnode, pol = conds[-1]
+    s_ = cnode.strip_all()
+    if not (s_.k == 'BinaryOperator' and s_.op in ('==', '>=') and pol and len(s_.c) == 2):
+        return None
+    lhs, rhs = s_.c[0].strip_all(), s_.c[1]
+    cnt = None
+    if lhs.k == 'UnaryOperator' and lhs.op == '++':
+        cnt = ex.var_of(lhs.c[0])
+    else:
+        cnt = ex.var_of(lhs)
+    if cnt is None:
+        return None
+    # the counter counts emissions: every other write to it is an increment in a block that also stores through the output iterator
+    outp = fn.param_ids[-1]
+    writes = [d for (d, _r) in ex.assignments_to(fn, cnt) if d.k != 'VarDecl']
+    cfg = fn.cfg
+    for w_ in writes:
+        if not (w_.k == 'UnaryOperator' and w_.op == '++'):
+            return None
+        pw = cfg.pos_of(w_)
+        if not pw or not any(x.k == 'DeclRefExpr' and x.decl_id == outp and cfg.pos_of(x) and
+                             (cfg.pos_of(x)[0] == pw[0] or cfg.block_dominates(cfg.pos_of(x)[0], pw[0])) and x.enclosing('ForStmt', 'WhileStmt') is w_.enclosing('ForStmt', 'WhileStmt')
+                             for x in fn.walk()):
+            return None
+    ini = [rhs_ for (d, rhs_) in ex.assignments_to(fn, cnt) if d.k == 'VarDecl']
+    if not ini or ini[0] is None or ini[0].strip_all().cv != 0:
+        return None
+    # value returned must be counter + 1 of the component counter: not checked further (R16c's other clause covers the fall-through return)
+    defs = {}
+    for d in fn.walk():
+        if d.k == 'VarDecl' and d.c and len(ex.assignments_to(fn, d.decl_id)) == 1:
+            defs[d.decl_id] = d.c[0]
+    bad = None
+    evaluated = 0
+    for nn in range(1, 7):
+        for m in range(0, 8):
+            if m > nn * (nn - 1) // 2:
+                continue
+
+            def bind(x, m=m, nn=nn):
+                if x.k == 'CallExpr' and x.callee and x.callee['g'] in ('boost::num_edges', 'boost::num_vertices') and ex.var_of(x.args()[0]) == g:
+                    return m if x.callee['name'] == 'num_edges' else nn
+                return None
+            try:
+                X = ex.ceval(rhs, bind, defs)
+            except ex.Unknown:
+                return None
+            evaluated += 1
+            if X < nn - 1 and X <= m and X >= 1 and bad is None:
+                bad = (m, nn, X)
+    if bad:
+        return ('bad', '`%s` returns from inside the component loop after %d tree edge(s) for a graph with %d vertices and %d edges: a forest with that many edges leaves %d '
+                'vertex/vertices unreached (isolated vertices, further trees), so the reported component count is too small and the cycle space dimension m - n + c '
+                'underflows' % (cnode.text(40), bad[2], bad[1], bad[0], bad[1] - bad[2] - 1))
+    return ('ok', 'the early return fires after n - 1 tree edges (every vertex reached) in all %d graph shapes' % evaluated)
 
 
 def check_forest_emission(rep, prog):
